@@ -14,10 +14,10 @@ from vt import invariants, irgen
 
 ID = "C11"
 SHARDS = {"quick": 16, "thorough": 16}
-RULE = ("irgen modules x subsets of a library of 10 terminating patterns that mutate only through the "
+RULE = ("irgen modules x subsets of a library of 12 terminating patterns that mutate only through the "
         "PatternRewriter API (erase-if-unused, replace-by-operand, replace-by-new-op with decreasing "
         "counter, insert-before once, modify in place + notify, replace_all_uses_with, "
-        "replace_uses_with_if, inline block, erase unused block argument, replace_value_with_new_type) "
+        "replace_uses_with_if, inline block, erase unused block argument, replace_value_with_new_type, erase a neighbouring op, insert a producer/consumer pair) "
         "wrapped in GreedyRewritePatternApplier (dce on/off) x every walker configuration "
         "(walk_reverse, walk_regions_first, apply_recursively) x the real Worklist or a perturbed pop "
         "order. Oracles: (1) after a recursive walk no pattern performs an action on any remaining op; "
@@ -130,12 +130,32 @@ def _lib():
                         rw.replace_value_with_new_type(r, i32)
                         return ("new_type", op)
 
+    class EraseNeighbour(RewritePattern):
+        """Erases an op other than the matched one (the next op, if it is an unused pure leaf)."""
+        def match_and_rewrite(self, op, rw):
+            nxt = op.next_op
+            if op.name == "test.op" and nxt is not None and nxt.name == "test.pureop" and not nxt.regions \
+                    and all(r.first_use is None for r in nxt.results):
+                rw.erase(nxt)
+                return ("erase_other", op)
+
+    class InsertPair(RewritePattern):
+        """Inserts a producer/consumer pair once; the consumer is a pure unused leaf (erasable)."""
+        def match_and_rewrite(self, op, rw):
+            if op.name == "builtin.unregistered" and "paired" not in op.attributes and op.parent is not None:
+                a = TestPureOp.create(result_types=[i32], attributes={"seen": UnitAttr()})
+                b = TestPureOp.create(operands=[a.results[0]], result_types=[i32], attributes={"seen": UnitAttr()})
+                rw.insert([a, b], InsertPoint.before(op))
+                op.attributes["paired"] = UnitAttr()
+                rw.notify_op_modified(op)
+                return ("insert", op)
+
     return [EraseUnused, ReplaceByOperand, ReplaceByNew, InsertOnce, ModifyInPlace, Rauw, Ruwi,
-            InlineRegion, EraseBlockArg, NewType]
+            InlineRegion, EraseBlockArg, NewType, EraseNeighbour, InsertPair]
 
 
 PATTERN_NAMES = ["erase_unused", "replace_by_operand", "replace_by_new", "insert_once", "modify_in_place",
-                 "rauw", "ruwi", "inline_region", "erase_block_arg", "new_type"]
+                 "rauw", "ruwi", "inline_region", "erase_block_arg", "new_type", "erase_neighbour", "insert_pair"]
 
 
 # ---- perturbed worklist (model-correct: a set with removal; pop order chosen by the recipe) ---------
